@@ -226,10 +226,12 @@ def ob_iterative(kind, strong, blocked=False):
             for r, it in zip(residuals, seen):
                 if not (isinstance(r, tuple) and r[0] == "NORM" and same(r[1], want_rhs - want_op @ it) is None):
                     problems.append("cg residual is not ||rhs - A x_k||")
-        if problems:
-            rp = replay_numeric(kind)
-            return violated("%s(%s%s): %s" % (kind, "strong" if strong else "weak", ", blocked" if blocked else "", "; ".join(problems)), signature="iterative/%s/%s/%s" % (kind, strong, blocked),
-                            replay={"callable": "checks.c15:replay_numeric", "kwargs": {"which": kind}, "confirmed": rp["violates"], "result": rp})
+    if problems:
+        # the native replay runs outside the object-algebra context (real scipy, floats)
+        which = kind + ("-blocked" if blocked else "")
+        rp = replay_numeric(which)
+        return violated("%s(%s%s): %s" % (kind, "strong" if strong else "weak", ", blocked" if blocked else "", "; ".join(problems)), signature="iterative/%s/%s/%s" % (kind, strong, blocked),
+                        replay={"callable": "checks.c15:replay_numeric", "kwargs": {"which": which}, "confirmed": rp["violates"], "result": rp})
     return proved("sym-exec+recording-stubs", "system, options, wrapping, info, residuals, count")
 
 
@@ -319,6 +321,23 @@ def replay_numeric(which):
                     continue  # the strong form of a symmetric operator is not symmetric: outside the cg clause ("symmetric positive definite A")
                 if info != 0 or e > 2000 * tol or cnt != len(res) or x.space != dp0:
                     bad["cg tol=%g" % tol] = e
+    if which in ("gmres-blocked", "cg-blocked", "all"):
+        # blocked systems: the requested tolerance must reach the scipy routine (true relative residual of the weak / strong system)
+        B = api.BlockedOperator(2, 2)
+        B[0, 0], B[1, 1] = V, second
+        B[0, 1] = api.operators.boundary.laplace.single_layer(p1, dp0, dp0, parameters=Z.params(3, 3))
+        rhs = B * [f0, f1]
+        for tol in (1e-4, 1e-8, 1e-11):
+            for strong in (False, True):
+                sol, info, res, cnt = gmres(B, rhs, tol=tol, use_strong_form=strong, return_residuals=True, return_iteration_count=True, restart=60, maxiter=300)
+                M = (B.strong_form() if strong else B.weak_form())
+                xv = np.concatenate([sol[0].coefficients, sol[1].coefficients])
+                bv = np.concatenate([rhs[0].coefficients, rhs[1].coefficients]) if strong else np.concatenate([rhs[0].projections(dp0), rhs[1].projections(p1)])
+                rr = float(np.linalg.norm(M @ xv - bv) / np.linalg.norm(bv))
+                details["gmres blocked tol=%g strong=%s (relative residual)" % (tol, strong)] = rr
+                if info != 0 or rr > 5 * tol or cnt != len(res) or sol[0].space != dp0 or sol[1].space != p1:
+                    bad["gmres blocked tol=%g strong=%s (relative residual)" % (tol, strong)] = rr
+    if which in ("gmres", "cg", "all"):
         xc, info = gmres(Vh, Vh * fc, tol=1e-10, maxiter=300)
         e = Z.relerr(xc.coefficients, fc.coefficients)
         details["gmres complex"] = e
@@ -358,6 +377,7 @@ def main():
     run.add("numeric.lu", "bounded", ob_numeric, "lu")
     run.add("numeric.lu-blocked", "bounded", ob_numeric, "lu-blocked")
     run.add("numeric.gmres+cg", "bounded", ob_numeric, "gmres")
+    run.add("numeric.gmres-blocked", "bounded", ob_numeric, "gmres-blocked")
     run.bound("symbolic part: generic 4x4 / 6x6 systems; numeric part: 32-element octahedron, tol 1e-4, 1e-8, 1e-12, weak and strong form")
     run.assume("convergence of the iterative solvers on well-conditioned systems is scipy's; checked only on the listed operators")
     return run.finish()
